@@ -19,3 +19,5 @@ Proof. cbv zeta. split; [reflexivity|]. split; [eexists; split; vm_compute; refl
 
 Require Import Proofs.IxTreeOrder.
 Definition v_tree_ordered_contiguous := tree_ordered_contiguous val val_eqb val_eqb_spec.
+
+Definition v_level_drop1_single_group := level_drop1_single_group val val_eqb val_eqb_spec.
